@@ -107,6 +107,7 @@ pub fn perm_selections(doc: &q::Document, rng: &mut Rng) -> q::Document { let mu
 pub fn reverse_selections(doc: &q::Document) -> q::Document { let mut d = doc.clone(); each_selset(&mut d, &mut |ss| ss.items.reverse()); d }
 pub fn perm_arguments(doc: &q::Document, rng: &mut Rng) -> q::Document { let mut d = doc.clone(); let mut r = rng.fork(); each_arglist(&mut d, &mut |a| r.shuffle(a)); d }
 pub fn reverse_arguments(doc: &q::Document) -> q::Document { let mut d = doc.clone(); each_arglist(&mut d, &mut |a| a.reverse()); d }
+pub fn reverse_variables(doc: &q::Document) -> q::Document { let mut d = doc.clone(); each_vardefs(&mut d, &mut |a| a.reverse()); d }
 pub fn perm_variables(doc: &q::Document, rng: &mut Rng) -> q::Document { let mut d = doc.clone(); let mut r = rng.fork(); each_vardefs(&mut d, &mut |a| r.shuffle(a)); d }
 
 /// consistent renaming of operations, fragments, variables and aliases to fresh names
